@@ -2,12 +2,12 @@
 """seedimport.py <Cxx>: copy a sub-agent's deliverables from /tmp/seed/<Cxx>/_seeded into /verif/seeded/<Cxx>-<k>/"""
 import json, os, re, shutil, sys
 pid = sys.argv[1]
-src = '/tmp/seed/%s/_seeded' % pid
+src = '/tmp/seed/%s%s/_seeded' % (os.environ.get('SEED_PREFIX', ''), pid)
 for k in (1, 2, 3):
     diff = os.path.join(src, 'change%d.diff' % k)
     if not os.path.exists(diff):
         continue
-    dst = '/verif/seeded/%s-%d' % (pid, k)
+    dst = '/verif/seeded/%s-%d' % (pid, k + int(os.environ.get('SEED_OFFSET', '0')))
     os.makedirs(dst, exist_ok=True)
     shutil.copy(diff, os.path.join(dst, 'patch.diff'))
     demo = open(os.path.join(src, 'demo%d_test.go' % k)).read()
